@@ -121,6 +121,11 @@ def manifestStep (st : MState) (line : String) : MState × String :=
     | some cs =>
       let (mf', err) := mf.addChanges cd cs
       ({ mf := some mf' }, (match err with | none => "ok" | some e => mErrStr e) ++ " " ++ dumpManifest mf'.manifest)
+  -- replay of the current file with one more frame (the session is not modified)
+  | ["appendraw", cs], some mf =>
+    match parseChanges cs with
+    | none => (st, "bad-op")
+    | some cs => (st, replayStr (replay cd (mf.file ++ frame cd (cd.enc cs)) mf.ext))
   | ["file"], some mf => (st, toHex mf.file)
   | ["replay"], some mf => (st, replayStr (replay cd mf.file mf.ext))
   | ["cut", k], some mf =>
